@@ -1,4 +1,4 @@
-//go:build c17
+//go:build c17 || c08 || c10
 
 package main
 
